@@ -401,11 +401,14 @@ fn model_raw(op: &Op, r: &Regs, epsw: f64) -> MOut {
                 let g = if *axis == 0 { j } else { i };
                 (s.at(i, j) - means[g]) / stds[g]
             });
+            // (x − mean)/std evaluated as written: the subtraction and the division each round once, so the error is
+            // a few ulps of the *result* — not of |x| + |mean| (a rewrite as x·(1/std) − mean·(1/std) loses
+            // log10(|mean|/|x − mean|) digits and is a loss of accuracy, not rounding)
             let sc: Vec<f64> = (0..s.r * s.c)
                 .map(|q| {
                     let (i, j) = (q / s.c, q % s.c);
                     let g = if *axis == 0 { j } else { i };
-                    (s.at(i, j).abs() + means[g].abs()) / stds[g].abs()
+                    ((s.at(i, j) - means[g]) / stds[g]).abs()
                 })
                 .collect();
             val_m(out, sc, 4.0)
@@ -1246,6 +1249,21 @@ fn find_m(rng: &mut Rng, r: &Regs, pred: impl Fn(&Mat) -> bool) -> Option<usize>
 
 /// Draws the next op given the current model registers. `hostile` raises the share of deliberately
 /// incompatible operand pairs.
+/// norm orders: small integers, the two infinities, fractional orders, and orders a hair away from an integer
+/// (k·(1 ± 1e-9..1e-7): "integral order" shortcuts must not round them)
+fn draw_norm_order(rng: &mut Rng) -> f64 {
+    match rng.below(10) {
+        0..=4 => *rng.pick(&[1.0, 2.0, 3.0, 4.0]),
+        5 => f64::INFINITY,
+        6 => f64::NEG_INFINITY,
+        7 => *rng.pick(&[0.5, 1.5, 2.5, 3.25]),
+        _ => {
+            let k = *rng.pick(&[1.0, 2.0, 3.0, 4.0]);
+            k * (1.0 + rng.logu(1e-9, 1e-7) * if rng.bool(0.5) { 1.0 } else { -1.0 })
+        }
+    }
+}
+
 /// index lists that look like something simpler than they are: the identity with a permuted or repeated interior,
 /// an ascending run with one foreign entry, the reversal, a rotation, the full range twice
 fn structured_indices(rng: &mut Rng, lim: usize) -> Vec<usize> {
@@ -1433,7 +1451,7 @@ pub fn draw_op(rng: &mut Rng, r: &Regs, f32w: bool) -> Op {
             Op::Dot(a, b)
         }
         48 => Op::Norm2(a),
-        49 => Op::Norm(a, *rng.pick(&[1.0, 2.0, 3.0, 4.0, f64::INFINITY, f64::NEG_INFINITY])),
+        49 => Op::Norm(a, f32f(draw_norm_order(rng))),
         50 => Op::Sum(a),
         51 => Op::Min(a),
         52 => Op::Max(a),
@@ -1449,7 +1467,7 @@ pub fn draw_op(rng: &mut Rng, r: &Regs, f32w: bool) -> Op {
         58 => match rng.below(3) {
             0 => Op::VDot(u, same_len(rng)),
             1 => Op::VNorm2(u),
-            _ => Op::VNorm(u, *rng.pick(&[1.0, 2.0, 3.0, f64::INFINITY, f64::NEG_INFINITY])),
+            _ => Op::VNorm(u, f32f(draw_norm_order(rng))),
         },
         59 => match rng.below(3) {
             0 => Op::VSum(u),
